@@ -24,7 +24,8 @@
 (* table entries; iD / iN isotope with / without; ionD ion of eD; iion ion *)
 (* of iD.                                                                  *)
 (*                                                                         *)
-(* FixSetter / FixEmis / FixNsfPriv / FixCSCopy are the behaviours of the  *)
+(* FixSetter / FixNsfPriv / FixCSCopy / FixSpin (and the unused FixEmis)   *)
+(* are the behaviours of the                                               *)
 (* `fix:` commits in /repo (TRUE = the repaired code); with all FALSE the  *)
 (* module describes the pinned upstream commit.                            *)
 (***************************************************************************)
@@ -33,19 +34,22 @@ EXTENDS Naturals, Sequences, FiniteSets, TLC
 CONSTANTS Groups,        \* groups explored in this run, subset of AllGroups
           PrivTables,    \* names of private tables that may be created
           MaxAsg, MaxMut, \* bounds on the number of user overrides / in-place mutations in one history
-          FixSetter, FixEmis, FixNsfPriv, FixCSCopy
+          FixSetter, FixEmis, FixNsfPriv, FixCSCopy, FixSpin
 
 AllGroups == {"cov", "cryst", "neut", "act", "xray", "emis", "mag"}
 Tables == {"pub"} \cup PrivTables
 Classes == {"El", "Iso", "Ion"}
+Rng(s) == {s[i] : i \in DOMAIN s}
 PropsOf(g) == CASE g = "cov" -> <<"cr", "cru", "crunc">>   [] g = "cryst" -> <<"cs">>
                 [] g = "neut" -> <<"nt">>  [] g = "act" -> <<"na">>  [] g = "xray" -> <<"xr">>
                 [] g = "emis" -> <<"ka", "kb", "kau", "kbu">>      [] g = "mag" -> <<"mf">>
-RegOn(g) == CASE g = "neut" -> <<"El", "Iso">> [] g = "act" -> <<"Iso">>
+                [] g = "spin" -> <<"ns">>          \* (FixSpin) second registration served by the neutron loader
+RegOn(g) == CASE g = "neut" -> <<"El", "Iso">> [] g = "act" -> <<"Iso">> [] g = "spin" -> <<"Iso">>
               [] g = "xray" -> <<"El", "Ion">> [] OTHER -> <<"El">>
-RegProps == {"cr", "cru", "crunc", "cs", "nt", "na", "xr", "ka", "kb", "kau", "kbu", "mf"}
-Props == RegProps \cup {"ns"}            \* ns = nuclear_spin: written by the neutron loader, not registered
-Rng(s) == {s[i] : i \in DOMAIN s}
+RegProps == {"cr", "cru", "crunc", "cs", "nt", "na", "xr", "ka", "kb", "kau", "kbu", "mf", "ns"}
+Props == RegProps                        \* ns = nuclear_spin: written by the neutron loader; registered only with FixSpin
+RegGroupOf(p) == IF p = "ns" THEN "spin" ELSE CHOOSE g \in AllGroups : p \in Rng(PropsOf(g))   \* whose props clearprops() deletes
+LoaderOf(rg) == IF rg = "spin" THEN "neut" ELSE rg                                           \* which init() the loader runs
 GroupOf(p) == IF p = "ns" THEN "neut" ELSE CHOOSE g \in AllGroups : p \in Rng(PropsOf(g))
 ReadProps(g) == Rng(PropsOf(g)) \cup (IF g = "neut" THEN {"ns"} ELSE {})
 Atoms == {"e0", "eD", "eN", "iD", "iN", "ionD", "iion"}
@@ -72,6 +76,7 @@ Guarded(g) == g # "emis"                                \* init_spectral_lines h
 \* loader bodies as step lists, in the order of the statements of the code.
 \*   <<"set", atom, prop>>        per-atom attribute write (may fire the delayed-load setter)
 \*   <<"cls", class, prop, kind>> class-level assignment (never fires anything)
+\*   <<"setifmissing", a, p>>     write only when the atom still serves the class-level placeholder
 \*   <<"probe", atom, prop>>      hasattr() (may fire the delayed-load getter, loading the PUBLIC table)
 \*   <<"pubfirst">>               (FixNsfPriv) make sure the public table is loaded before touching class defaults
 InitSteps(g) ==
@@ -80,7 +85,7 @@ InitSteps(g) ==
     [] g = "cryst" -> << <<"set", "e0", "cs">>, <<"set", "eD", "cs">> >>
     [] g = "neut"  -> (IF FixNsfPriv THEN << <<"pubfirst">> >> ELSE << >>) \o
                       << <<"cls", "Iso", "nt", "defN">>, <<"cls", "El", "nt", "defN">>, <<"set", "e0", "nt">>,
-                         <<"set", "eD", "nt">>, <<"set", "iD", "nt">>, <<"set", "iD", "ns">> >>
+                         <<"set", "iD", "nt">>, <<"set", "iD", "ns">>, <<"setifmissing", "eD", "nt">> >>
     [] g = "act"   -> << <<"probe", "iD", "na">>, <<"probe", "iN", "na">>, <<"set", "iD", "na">> >>
     [] g = "xray"  -> << <<"cls", "El", "xr", "real">>, <<"cls", "Ion", "xr", "real">> >>
     [] g = "emis"  -> IF FixEmis
@@ -95,7 +100,11 @@ Steps(st, T, steps) ==                                   \* a loader body, abort
   IF steps = <<>> THEN [st |-> st, err |-> FALSE]
   ELSE LET s == Head(steps)
            r == CASE s[1] = "set"   -> SetAttr(st, T, s[2], s[3])
-                  [] s[1] = "cls"   -> [st |-> SetSlot(st, s[2], s[3], s[4]), err |-> FALSE]
+                  [] s[1] = "cls"   ->        \* a class-level default is a fresh object: earlier in-place changes are gone
+                       [st |-> [SetSlot(st, s[2], s[3], s[4]) EXCEPT !.mut = {m \in @ : m[1] # <<"classdefault", s[3]>>}],
+                        err |-> FALSE]
+                  [] s[1] = "setifmissing" ->   \* "if element.neutron is missing: element.neutron = nsf" (sole-isotope elements)
+                       IF HasInst(st, T, s[2], s[3]) THEN [st |-> st, err |-> FALSE] ELSE SetAttr(st, T, s[2], s[3])
                   [] s[1] = "probe" -> [st |-> Read(st, T, s[2], s[3]).st, err |-> FALSE]
                   [] s[1] = "pubfirst" -> IF T = "pub" THEN [st |-> st, err |-> FALSE] ELSE InitG(st, "neut", "pub")
        IN IF r.err THEN r ELSE Steps(r.st, T, Tail(steps))
@@ -103,10 +112,10 @@ Steps(st, T, steps) ==                                   \* a loader body, abort
 SetAttr(st, T, a, p) ==
   LET k == Slot(st, ClassOf(a), p)
   IN IF k = "pend"                                       \* delayed_load setter: clearprops(); setattr()
-     THEN LET r == ClearProps(st, GroupOf(p))
+     THEN LET r == ClearProps(st, RegGroupOf(p))
           IN IF r.err THEN r
              ELSE IF FixSetter                           \* repaired setter: clearprops(); loader(); setattr()
-                  THEN LET r2 == InitG(r.st, GroupOf(p), "pub")
+                  THEN LET r2 == InitG(r.st, LoaderOf(RegGroupOf(p)), "pub")
                        IN IF r2.err THEN r2 ELSE [st |-> SetInst(r2.st, T, a, p), err |-> FALSE]
                   ELSE [st |-> SetInst(r.st, T, a, p), err |-> FALSE]
      ELSE IF k = "real" THEN [st |-> st, err |-> TRUE]   \* property without setter
@@ -117,24 +126,29 @@ InitG(st, g, T) ==
   ELSE Steps([st EXCEPT !.tp[T] = IF Guarded(g) THEN @ \cup {g} ELSE @], T, InitSteps(g))
 
 \* heap object served by an instance attribute / class default
-ObjOfInst(T, a, p) == IF p = "cs" /\ ~FixCSCopy THEN <<"cs", "shared", a>> ELSE <<p, T, a>>
+\* Co has a single row (Co-59) in the neutron table: the loader hands the isotope's record to the element,
+\* so within one table eD and iD serve the same Neutron object.
+Owner(a, p) == IF p = "nt" /\ a = "eD" THEN "iD" ELSE a
+ObjOfInst(T, a, p) == IF p = "cs" /\ ~FixCSCopy THEN <<"cs", "shared", a>>
+                      ELSE IF <<T, a, p>> \in {} THEN <<>> ELSE <<p, T, Owner(a, p)>>
 Mutated(st, o) == \E m \in st.mut : m[1] = o
 MutBy(st, o) == {m[2] : m \in {x \in st.mut : x[1] = o}}
 NoneData == {<<"e0", "cs">>}                  \* table entries whose value is None (the neutron has no crystal structure)
-ValOfInst(st, T, a, p) == IF <<T, a, p>> \in st.asg THEN "A"
-                          ELSE IF <<a, p>> \in NoneData THEN "P"
-                          ELSE IF p \in Mutable /\ Mutated(st, ObjOfInst(T, a, p)) THEN "M" ELSE "D"
+InstObj(st, T, a, p) == IF <<T, a, p>> \in st.asg THEN <<"assigned", T, a, p>> ELSE ObjOfInst(T, a, p)
+ValOfInst(st, T, a, p) == IF p \in Mutable /\ Mutated(st, InstObj(st, T, a, p)) THEN "M"
+                          ELSE IF <<T, a, p>> \in st.asg THEN "A"
+                          ELSE IF <<a, p>> \in NoneData THEN "P" ELSE "D"
 
 Read(st, T, a, p) ==                                     \* getattr(atom, p) with every side effect
   LET k == Slot(st, ClassOf(a), p)
   IN IF k = "pend"                                       \* delayed_load getter: clearprops(); loader(); getattr()
-     THEN LET r == ClearProps(st, GroupOf(p))
+     THEN LET r == ClearProps(st, RegGroupOf(p))
           IN IF r.err THEN [st |-> r.st, val |-> "E", obj |-> <<>>]
-             ELSE LET r2 == InitG(r.st, GroupOf(p), "pub")
+             ELSE LET r2 == InitG(r.st, LoaderOf(RegGroupOf(p)), "pub")
                   IN IF r2.err THEN [st |-> r2.st, val |-> "X", obj |-> <<>>] ELSE Read(r2.st, T, a, p)
      ELSE IF k = "real" THEN [st |-> st, obj |-> <<p, T, a>>,
                               val |-> IF Mutated(st, <<p, T, a>>) THEN "M" ELSE "D"]
-     ELSE IF HasInst(st, T, a, p) THEN [st |-> st, val |-> ValOfInst(st, T, a, p), obj |-> ObjOfInst(T, a, p)]
+     ELSE IF HasInst(st, T, a, p) THEN [st |-> st, val |-> ValOfInst(st, T, a, p), obj |-> InstObj(st, T, a, p)]
      ELSE IF k = "defN" THEN [st |-> st, obj |-> <<"classdefault", p>>,
                               val |-> IF Mutated(st, <<"classdefault", p>>) THEN "M" ELSE "P"]
      ELSE IF k = "defU" THEN [st |-> st, val |-> "D", obj |-> <<>>]
@@ -142,7 +156,8 @@ Read(st, T, a, p) ==                                     \* getattr(atom, p) wit
      ELSE [st |-> st, val |-> "E", obj |-> <<>>]                        \* AttributeError
 
 St0 == [cls |-> [cp \in Classes \X RegProps |->
-                   IF cp[1] \in Rng(RegOn(GroupOf(cp[2]))) THEN "pend" ELSE "abs"],
+                   IF cp[2] = "ns" THEN (IF FixSpin /\ cp[1] = "Iso" THEN "pend" ELSE "abs")
+                   ELSE IF cp[1] \in Rng(RegOn(GroupOf(cp[2]))) THEN "pend" ELSE "abs"],
         inst |-> {}, asg |-> {}, tp |-> [T \in Tables |-> {}], tabs |-> {}, mut |-> {}]
 
 \* ---- the canonical order (C09's oracle inside the model) ------------------
@@ -157,7 +172,9 @@ Canon(a, p) == Read(CanonState, "pub", a, p).val
 \* ---- events ----------------------------------------------------------------
 Create(st, T) == [st EXCEPT !.tabs = @ \cup {T}]
 Assign(st, T, a, p) == LET r == SetAttr(st, T, a, p)
-                       IN IF r.err THEN r.st ELSE [r.st EXCEPT !.asg = @ \cup {<<T, a, p>>}]
+                       IN IF r.err THEN r.st
+                          ELSE [r.st EXCEPT !.asg = @ \cup {<<T, a, p>>},          \* a fresh marker object
+                                            !.mut = {m \in @ : m[1] # <<"assigned", T, a, p>>}]
 Mutate(st, T, a, p) == LET r == Read(st, T, a, p)        \* read the value, then change it in place
                        IN IF r.val \in {"E", "X"} \/ r.obj = <<>> THEN r.st
                           ELSE [r.st EXCEPT !.mut = @ \cup {<<r.obj, T>>}]
@@ -180,6 +197,7 @@ Apply(st, ev) ==
     [] ev.op = "mutate" -> Mutate(st, ev.T, ev.a, ev.p)
     [] ev.op = "import" -> ImportM(st, ev.m)
     [] ev.op = "calc"   -> Calc(st, ev.c)
+    [] ev.op \in {"parse", "pickle"} -> st          \* parsing with table=T / pickling an atom touch no lazy property
 
 \* predicted outcome class of an event (what the harness logs as out.cls)
 Outcome(st, ev) ==
